@@ -265,10 +265,14 @@ func buildTarget(state *core.BuildState, target *core.BuildTarget, runRemotely b
 			if err != nil {
 				return err
 			}
-			if changed {
+			// Declared hashes must hold for what is in plz-out now, not only for files that have just been re-linked:
+			// the hashes can be edited, or a source overwritten in place, without any link changing.
+			if changed || len(target.Hashes) > 0 {
 				if _, err := calculateAndCheckRuleHash(state, target); err != nil {
 					return err
 				}
+			}
+			if changed {
 				target.SetState(core.Built)
 				state.LogBuildResult(target, core.TargetBuilt, "Built")
 			} else {
